@@ -277,12 +277,36 @@ def generators_passed_to_reiterating_functions(prog, rels, gens):
     return found
 
 
-DETECTORS = {"P1": "one-shot-iterator", "P2": "truthy-bound", "P3": "truncating-dtype"}
+def identity_on_values(tree):
+    """P4: `x is "text"` / `x is not 3` / `x is _CONST` with _CONST a module-level string or number: identity of strings
+    and numbers is an accident of interning -- an equal value built at run time (parsed, lower-cased, computed) is a
+    different object, so the test silently goes the other way."""
+    from ..desugar import module_scalar_constants
+    consts = {k for k, v in module_scalar_constants(tree).items() if isinstance(v, ast.Constant) and isinstance(v.value, (str, int, float)) and not isinstance(v.value, bool)}
+    found = []
+    for fn in [n for n in ast.walk(tree) if isinstance(n, (ast.FunctionDef, ast.AsyncFunctionDef))]:
+        local = {n.id for n in _own(fn) if isinstance(n, ast.Name) and isinstance(n.ctx, ast.Store)} | {a.arg for a in ast.walk(fn.args) if isinstance(a, ast.arg)}
+        for n in _own(fn):
+            if isinstance(n, ast.Compare) and len(n.ops) == 1 and isinstance(n.ops[0], (ast.Is, ast.IsNot)):
+                for side in (n.left, n.comparators[0]):
+                    val = None
+                    if isinstance(side, ast.Constant) and isinstance(side.value, (str, int, float)) and not isinstance(side.value, bool):
+                        val = repr(side.value)
+                    elif isinstance(side, ast.Name) and side.id in consts and side.id not in local:
+                        val = side.id
+                    if val is not None:
+                        found.append((n.lineno, "P4", fn.name, f"`{src(n)[:60]}` compares with {val} by identity: two equal strings / numbers need not be one object (a value read from a file, lower-cased or computed is not the interned literal), so the test fails for an equal value", src(n)[:40]))
+                        break
+    return found
+
+
+DETECTORS = {"P1": "one-shot-iterator", "P2": "truthy-bound", "P3": "truncating-dtype", "P4": "identity-on-value"}
 
 _POSITIVE = {
     "P1": "def gen(xs):\n    for x in xs:\n        yield x\n\ndef build(xs):\n    fns = gen(xs)\n    return lambda x, fns=fns: sum(f(x) for f in fns)\n\ndef rows(elems, qs):\n    it = enumerate(elems)\n    for q in qs:\n        for j, e in it:\n            pass\n",
     "P2": "def check(v):\n    if not (v.lb or v.ub):\n        return None\n    return v\n",
     "P3": "import numpy as np\ndef ev(c, fns, x):\n    return np.fromiter((f(x) for f in fns), dtype=c.dtype, count=len(fns))\n",
+    "P4": "_KIND = 'integer'\ndef f(v):\n    return v.domain is _KIND or v.domain is not 'binary'\n",
 }
 _NEGATIVE = "import numpy as np\ndef ok(xs, v, c):\n    fns = list(f for f in xs)\n    pairs = enumerate(xs)\n    for i, e in pairs:\n        pass\n    if v.lb is not None and v.ub is None:\n        pass\n    out = np.zeros(3, dtype=float)\n    return lambda x, fns=fns: sum(f(x) for f in fns)\n"
 
@@ -292,7 +316,7 @@ def selfcheck():
         tree = ast.parse(code)
         _parents(tree)
         got = _run(tree, _generator_functions([tree]))
-        n_expected = {"P1": 2, "P2": 2, "P3": 1}[kind]
+        n_expected = {"P1": 2, "P2": 2, "P3": 1, "P4": 2}[kind]
         if sum(1 for f in got if f[1] == kind) != n_expected:
             raise AnalysisError(f"pitfall detector {kind} no longer matches its built-in positive example ({len(got)} finding(s))")
     tree = ast.parse(_NEGATIVE)
@@ -308,7 +332,7 @@ def _parents(tree):
             c._parent = n
 
 
-def _run(tree, gens, kinds=("P1", "P2", "P3")):
+def _run(tree, gens, kinds=("P1", "P2", "P3", "P4")):
     out = []
     if "P1" in kinds:
         out += one_shot_iterators(tree, gens)
@@ -316,12 +340,15 @@ def _run(tree, gens, kinds=("P1", "P2", "P3")):
         out += truthy_bounds(tree)
     if "P3" in kinds:
         out += truncating_dtypes(tree)
+    if "P4" in kinds:
+        out += identity_on_values(tree)
     return out
 
 
 def report(prog, rep, rule, rels, kinds=("P1", "P2", "P3"), skip_functions=()):
     """One robust obligation per finding in the listed files, plus one (trivial) inventory line."""
     selfcheck()
+    kinds = tuple(kinds) + (("P4",) if "P4" not in kinds else ())
     gens = _generator_functions([m.tree for m in prog.modules.values()])
     n_fn = 0
     total = 0
